@@ -1726,15 +1726,27 @@ def c16_cases(tier, seed):
         c = Case(keys, mode=mode, timeout=0, prompt="> ", reads=nreads * 3, chunks=chunks, helper=True, validator="script",
                  cands=["abc", "abd"], meta=meta)
         cases.append(c)
+    # output that stalls: a line so long that its repaint does not fit into what the pty takes while nobody reads it; window
+    # resizes arrive while the child is blocked in that write (the write is interrupted and must be taken up again); then the
+    # terminal is read again and the read ends normally
+    for i in range(max(2, n // 50)):
+        mode = ["emacs", "vi"][i % 2]
+        keys = ["Left", "x", "Enter", "z", "Enter"]        # x goes INTO the line: the whole line is written again
+        chunks = [p_tty.key_bytes(k) for k in keys]
+        meta = {"paste": 1, "signals": 0, "pause": 1, "between": ["keep"] * 6, "ends": ["enter", "enter"], "raw_initial": False,
+                "stall_events": {"stall:1": [70, 80, 90, 75, 85, 95, 72, 80][:5 + i % 4]}}
+        c = Case(keys, mode=mode, timeout=0, prompt="> ", reads=3, chunks=chunks, helper=False, initial=("a" * 40000, ""), meta=meta)
+        cases.append(c)
     return cases
 
 
 def _c16_job(job):
     import ptydrive
-    exe, spec, chunks, raw_initial, between = job
+    exe, spec, chunks, raw_initial, between = job[:5]
+    events = job[5] if len(job) > 5 else None
     for attempt in range(2):
         try:
-            r = ptydrive.run_case(exe, spec, chunks, raw_initial=raw_initial, between_reads=between)
+            r = ptydrive.run_case(exe, spec, chunks, raw_initial=raw_initial, between_reads=between, events=events)
             r.pop("termios_probe", None)
             return r
         except OSError as e:
@@ -1753,7 +1765,7 @@ def c16_corr(res, exe, driver, tier, seed, tmp):
     jobs = []
     for c in cases:
         spec = c.spec() + "pause 1\n"
-        jobs.append((exe, spec, c.chunks, c.meta["raw_initial"], c.meta["between"]))
+        jobs.append((exe, spec, c.chunks, c.meta["raw_initial"], c.meta["between"], c.meta.get("stall_events")))
     ctx = multiprocessing.get_context("fork")
     with ctx.Pool(NPROC) as pool:
         raws = pool.map(_c16_job, jobs, chunksize=max(1, len(jobs) // (NPROC * 8)))
